@@ -92,7 +92,7 @@ def make_scorer(spec):
     if s == "item-knn":
         from lenskit.knn import ItemKNNScorer
         return ItemKNNScorer(max_nbrs=c.get("max_nbrs", 20), min_nbrs=c.get("min_nbrs", 1), feedback=c.get("feedback", "explicit"),
-                             save_nbrs=c.get("save_nbrs"))
+                             save_nbrs=c.get("save_nbrs"), block_size=c.get("block_size", 250))
     if s == "user-knn":
         from lenskit.knn import UserKNNScorer
         return UserKNNScorer(max_nbrs=c.get("max_nbrs", 20), min_nbrs=c.get("min_nbrs", 1), feedback=c.get("feedback", "explicit"))
@@ -112,13 +112,13 @@ def make_scorer(spec):
                              range=None if rng is None else (float(fparse(rng[0])), float(fparse(rng[1]))))
     if s == "biased-svd":
         from lenskit.sklearn.svd import BiasedSVDScorer
-        return BiasedSVDScorer(embedding_size=c.get("k", 2), algorithm=c.get("algorithm", "randomized"), n_iter=2)
+        return BiasedSVDScorer(embedding_size=c.get("k", 2), algorithm=c.get("algorithm", "randomized"), n_iter=c.get("n_iter", 2))
     if s == "flexmf-explicit":
         from lenskit.flexmf import FlexMFExplicitScorer
-        return FlexMFExplicitScorer(embedding_size=c.get("k", 3), epochs=c.get("epochs", 2), batch_size=8, reg_method=c.get("reg_method", "L2"))
+        return FlexMFExplicitScorer(embedding_size=c.get("k", 3), epochs=c.get("epochs", 2), batch_size=c.get("batch_size", 8), reg_method=c.get("reg_method", "L2"))
     if s == "flexmf-implicit":
         from lenskit.flexmf import FlexMFImplicitScorer
-        return FlexMFImplicitScorer(embedding_size=c.get("k", 3), epochs=c.get("epochs", 2), batch_size=8, loss=c.get("loss", "logistic"),
+        return FlexMFImplicitScorer(embedding_size=c.get("k", 3), epochs=c.get("epochs", 2), batch_size=c.get("batch_size", 8), loss=c.get("loss", "logistic"),
                                     negative_strategy=c.get("negative_strategy", "uniform"), negative_count=c.get("negative_count", 1))
     if s == "implicit-als":
         from lenskit.implicit import ALS
@@ -481,11 +481,13 @@ def run(case):
         h = q["split"]
         c["half_a"] = call(scorer, name, query, ids[:h], env, prov=prov)
         c["half_b"] = call(scorer, name, query, ids[h:], env)
+        # every picked candidate ALONE (same query object)
+        c["singles"] = [call(scorer, name, query, [ids[j]], env) for j in q.get("singles", [])]
         c["again"] = call(scorer, name, query, ids, env)          # after the other calls: the model is unchanged
         # a FRESH query object with the same content, its history given plainly by identifier, and the candidates by identifier
         c["fresh"] = call(scorer, name, Query(q, env, PLAIN), ids, env)
-        for k in KINDS + ("fresh",):
-            del c[k]["cand"]
+        for o in [c[k] for k in KINDS + ("fresh",)] + c["singles"]:
+            del o["cand"]
         calls.append(c)
     obs["calls"] = calls
     return obs
